@@ -274,6 +274,25 @@ def run(tier, seed, work):
         pool = covering_pool(r, 200)
         pairs = [(i * len(pool) + j, pool[i], pool[j]) for i in range(len(pool)) for j in range(len(pool))]
         nread = 10000
+    # derived pairs: the new env is the old one with whole scopes dropped (everything else byte-identical), and vice versa -
+    # the situations in which a writer could believe "nothing changed here"
+    base = len(pairs) + 100000
+    derived = []
+    for i, e in enumerate(pool):
+        scopes = sorted({x[0] for x in e})
+        for sc in scopes:
+            sub = [x for x in e if x[0] != sc]
+            derived.append((base + len(derived), e, sub))
+            derived.append((base + len(derived), sub, e))
+        procs = [x for x in e if x[0].startswith("process:")]
+        if procs:
+            noproc = [x for x in e if not x[0].startswith("process:")]
+            derived.append((base + len(derived), e, noproc))
+            derived.append((base + len(derived), noproc, e))
+        derived.append((base + len(derived), e, e))
+    if tier == "quick":
+        derived = derived[:1500]
+    pairs += derived
     shards = [("pair", s, seed, work) for s in vp.split(pairs, vp.NCPU * 2)]
     shards += [("read", s, seed, work) for s in vp.split(range(nread), vp.NCPU)]
     for d in vp.pmap(shard_run, shards):
